@@ -393,7 +393,7 @@ func (m *model) genDecl(t *rapid.T) string {
 			}
 		}
 		if len(cands) == 0 {
-			return ""
+			cands = []string{fmt.Sprintf("Tn%d", len(m.order))}
 		}
 		td := &typeDesc{Name: rapid.SampledFrom(cands).Draw(t, "tname")}
 		used := map[string]bool{}
